@@ -238,6 +238,21 @@ def run_semantic(ctx, progs):
         b2 = "let t = Tags[ this.Key == 'env' ]\nrule r {\n  %%t.Value == 'prod'\n  %s\n}\n" % body.replace('%s', 'this.')
         for d in fdocs:
             tb.append((a, b, d)); tb.append((a2, b2, d))
+    # compact layout: a word operator directly followed by the next token (`]`, `}`, `<<`, `[`, a quote, `%`, `/`) against the same
+    # clause with a blank there; `keys` filters and block closers likewise
+    cdoc = [{'Resources': {'a': {'Type': 'T', 'Properties': {'Enc': True, 'Name': 'n', 'Tags': [1, 2]}}, 'b': {'Type': 'U', 'Properties': {'Name': 'm'}}}, 'x': 1, 'v': [1, 2]},
+            {'Resources': {'a': {'Type': 'T', 'Properties': {'Enc': False, 'Name': '', 'Tags': []}}}, 'x': 3, 'v': []}]
+    compact = [('Resources.*[ Properties.Enc exists ].Properties.Enc == true', 'Resources.*[ Properties.Enc exists].Properties.Enc == true'),
+               ('Resources.* {\n    Properties.Name !empty }', 'Resources.* {\n    Properties.Name !empty}'),
+               ('Resources.*[ Properties.Tags !empty ] {\n    Properties.Name exists }', 'Resources.*[ Properties.Tags !empty] {\n    Properties.Name exists}'),
+               ('x exists <<msg>>', 'x exists<<msg>>'), ('x IN [1, 2]', 'x IN[1, 2]'), ('x in [1, 2]', 'x in[1, 2]'), ('x not in [3]', 'x not in[3]'),
+               ('Resources.*.Properties.Name in ["n", "m"]', 'Resources.*.Properties.Name in["n", "m"]'), ('Resources.*.Properties.Name IN /n/', 'Resources.*.Properties.Name IN/n/'),
+               ('x is_int <<m>>', 'x is_int<<m>>'), ('Resources.*[ Type IN ["T"] ].Properties.Enc exists', 'Resources.*[ Type IN["T"]].Properties.Enc exists'),
+               ('v empty or x exists', 'v empty or x exists'), ('Resources.*[ Properties.Name is_string ] !empty', 'Resources.*[ Properties.Name is_string] !empty')]
+    for sp, co in compact:
+        for d in cdoc:
+            tb.append(('rule r {\n  %s\n}\n' % sp, 'rule r {\n  %s\n}\n' % co, d))
+            tb.append(('let v2 = [1, 2]\nrule r {\n  %s\n  x in %%v2\n}\n' % sp, 'let v2 = [1, 2]\nrule r {\n  %s\n  x in%%v2\n}\n' % co, d))
     for i, (a, b, d) in enumerate(tb):
         pairs.append((a, json.dumps(d))); meta.append((10 ** 6 + i, 'base', a))
         pairs.append((b, json.dumps(d))); meta.append((10 ** 6 + i, 'equivalent-form', b))
